@@ -74,11 +74,7 @@ theorem plain_runs_same_times (c : Cfg) (evs evs' : List EvB) (p : PlainRun c ev
 
 /-! ### the hypotheses can be met: the nested tree of `FlatB.exCfg` and its flattened graph -/
 
-/-- a decidable form of `PlainRun` -/
-def plainCheck (c : Cfg) (evs : List EvB) : Bool :=
-  c.wf && ((acceptB c StB.init evs).map fun st => decide (st.pcB 0 = .over)) == some true &&
-  ((List.range c.n).all fun j => c.window j == 0 && c.timeout j == none && c.forever j == false) &&
-  okCheck evs && nfCheck evs && zeroCheck c StB.init evs
+/-! `plainCheck` (defined in `Model/Flat.lean`, the driver executes it) is a decidable form of `PlainRun` -/
 
 theorem plainCheck_spec (c : Cfg) (evs : List EvB) (h : plainCheck c evs = true) : PlainRun c evs := by
   simp only [plainCheck, Bool.and_eq_true, beq_iff_eq, List.all_eq_true, List.mem_range] at h
